@@ -137,6 +137,15 @@ def run(ctx):
     for f in sorted(os.listdir(cdir)):
         corpus += [l.strip() for l in open(os.path.join(cdir, f)) if l.strip()]
     cases = gen(ctx, T)
+    # the other two entry points (`parse_bytes`; `parse_words` for whole-word inputs) on every third case: same expectations
+    twins = []
+    for k, (r, m) in enumerate(cases):
+        if k % 3 == 0 and r.startswith("parse ") and " " not in r[6:]:
+            hx = r[6:]
+            twins.append(("parseb " + hx, m))
+            if len(hx) % 8 == 0:
+                twins.append(("parsew " + hx, m))
+    cases = cases + twins
     metas = {r: m for r, m in cases}
 
     def oracle(req, resp):
